@@ -114,21 +114,33 @@ NAME_FAMILIES = [
     ['../work.log', '../work-extra.txt', 'out0.txt'],        # beside the working directory ("work"), sharing its prefix
     ['TMPDIR/tmpout.txt', 'out0.txt', 'TMPDIR/scratch.dat'],  # written under $TMPDIR (gentest watches its own $TMPDIR)
     ['TMPDIR/only.log'],
+    ['HOME/report.txt', 'out0.txt'],                         # written in the user's home directory, named to gentest as ~/report.txt
+    ['HOME/notes/summary.log'],
 ]
 TMP_PREFIX = 'TMPDIR/'
+HOME_PREFIX = 'HOME/'
 
 
 def sh_path(name):
     """The file name as the sh script writes it."""
     if name.startswith(TMP_PREFIX):
         return '"$TMPDIR"/' + shlex.quote(name[len(TMP_PREFIX):])
+    if name.startswith(HOME_PREFIX):
+        return '"$HOME"/' + shlex.quote(name[len(HOME_PREFIX):])
     return shlex.quote(name)
 
 
-def real_path(name, workdir, tmpdir):
+def real_path(name, workdir, tmpdir, home=None):
     if name.startswith(TMP_PREFIX):
         return os.path.join(tmpdir, name[len(TMP_PREFIX):])
+    if name.startswith(HOME_PREFIX):
+        return os.path.join(home or os.path.expanduser('~'), name[len(HOME_PREFIX):])
     return os.path.join(workdir, name)
+
+
+def elsewhere(name):
+    """Not under the working directory."""
+    return name.startswith(TMP_PREFIX) or name.startswith(HOME_PREFIX)
 
 
 def file_names(rng, n):
@@ -217,9 +229,12 @@ def mutated(spec, mut):
 
 def _body(spec):
     out = [_printf_text(spec['stdout']), _printf_text(spec['stderr']) + ' >&2']
-    dirs = sorted(set(f['name'].rsplit('/', 1)[0] for f in spec['files'] if '/' in f['name'] and not f['name'].startswith(TMP_PREFIX)))
+    dirs = sorted(set(f['name'].rsplit('/', 1)[0] for f in spec['files'] if '/' in f['name'] and not elsewhere(f['name'])))
     if dirs:
         out.append('mkdir -p ' + ' '.join(shlex.quote(d) for d in dirs))
+    for f in spec['files']:
+        if f['name'].startswith(HOME_PREFIX) and '/' in f['name'][len(HOME_PREFIX):]:
+            out.append('mkdir -p "$HOME"/' + shlex.quote(f['name'][len(HOME_PREFIX):].rsplit('/', 1)[0]))
     for f in spec['files']:
         if f.get('missing'):
             out.append(': # (this run does not produce %s)' % f['name'].replace("'", ''))
